@@ -151,12 +151,44 @@ func EdgeConds(b *ssa.BasicBlock) []Cond {
 			continue
 		}
 		if onlyEnteredVia(t, d) && (t == b || t.Dominates(b)) {
-			out = append(out, Cond{iff.Cond, true, iff})
+			v, pol := normBool(iff.Cond, true)
+			out = append(out, Cond{v, pol, iff})
 		} else if onlyEnteredVia(f, d) && (f == b || f.Dominates(b)) {
-			out = append(out, Cond{iff.Cond, false, iff})
+			v, pol := normBool(iff.Cond, false)
+			out = append(out, Cond{v, pol, iff})
 		}
 	}
 	return out
+}
+
+// normBool strips `!x`, `x == true/false`, `x != true/false` wrappers so that
+// equivalent spellings of one test yield the same (value, polarity).
+func normBool(v ssa.Value, pol bool) (ssa.Value, bool) {
+	for i := 0; i < 4; i++ {
+		switch x := v.(type) {
+		case *ssa.UnOp:
+			if x.Op == token.NOT {
+				v, pol = x.X, !pol
+				continue
+			}
+		case *ssa.BinOp:
+			if x.Op == token.EQL || x.Op == token.NEQ {
+				for _, pr := range [][2]ssa.Value{{x.X, x.Y}, {x.Y, x.X}} {
+					if k, ok := pr[1].(*ssa.Const); ok && k.Value != nil && k.Value.Kind() == constant.Bool {
+						same := constant.BoolVal(k.Value) == (x.Op == token.EQL)
+						v = pr[0]
+						if !same {
+							pol = !pol
+						}
+						goto next
+					}
+				}
+			}
+		}
+		return v, pol
+	next:
+	}
+	return v, pol
 }
 
 // onlyEnteredVia: every predecessor of s other than d is dominated by s itself
